@@ -44,7 +44,7 @@ ASSUMPTIONS = [
     "when save(A) differs from the edits-only twin but equals a twin that additionally has the same set of tables decompiled (no saves), the difference is attributed to "
     "documented loaded-table-dependent recalculation (hhea/maxp/head recalc only when glyf/CFF is loaded) and counted, not failed",
     "an operation that raises on A and raises the same exception type on a never-saved twin is outside the property (counted)",
-    "object-model comparison masks what compile() documents it recalculates: head.checkSumAdjustment/modified/indexToLocFormat, bounding boxes and extents of head/hhea/vhea/maxp/glyf/CFF, "
+    "object-model comparison masks what compile() documents it recalculates: head.checkSumAdjustment/modified/indexToLocFormat and bit 1 of head.flags (maxp.recalc), bounding boxes and extents of head/hhea/vhea/maxp/glyf/CFF, "
     "maxp statistics, numberOfHMetrics/numberOfVMetrics, OS/2 usFirstCharIndex/usLastCharIndex, post extraNames, and the computed fields (counts, struct lengths) that TTX prints as '<!-- XCount=n -->' comment lines "
     "(COLR.preWrite resets LayerRecordCount on the object by design); name.compile sorts the name records in place, so the twin's records are sorted before dumping",
     "exception identity across children is (type, innermost fontTools frame); messages may contain paths",
